@@ -151,6 +151,10 @@ class Kernel:
 
     def seam(self, kind, info=None):
         """Called before the effect of a seam call."""
+        # events that are due (e.g. the reply of a terminal that answers instantly) have
+        # happened by the time of the next system call, even if virtual time stood still
+        if self.heap and self.heap[0][0] <= self.now:
+            self.run_due()
         k = self.counts[kind] = self.counts.get(kind, 0) + 1
         if self.seq_log is not None and kind != "clock":
             self.seq_log.append((kind, k))
